@@ -20,6 +20,7 @@ import (
 	"path/filepath"
 	"sort"
 	"strings"
+	"sync"
 
 	billy "github.com/go-git/go-billy/v6"
 	"github.com/go-git/go-billy/v6/osfs"
@@ -92,6 +93,7 @@ type repo struct {
 	info    map[string]objInfo
 	byType  map[string][]string
 	hasRev  bool
+	bigDelta string // layout bigdelta: id of the >16 MiB blob stored as a delta
 }
 
 type optSet struct {
@@ -117,7 +119,16 @@ func run(c *vf.Ctx) {
 	readsPer := c.N(1200, 3000)
 
 	repos := make([]*repo, nRepos)
-	vf.Parallel(nRepos, 6, func(i int) {
+	var big *repo
+	vf.Parallel(nRepos+1, 6, func(i int) {
+		if i == nRepos {
+			rp, err := buildBigDelta(c, g, i)
+			if err != nil {
+				c.Broken("building the big-delta repository: %v", err)
+			}
+			big = rp
+			return
+		}
 		rp, err := buildRepo(c, g, i, layouts[i%len(layouts)])
 		if err != nil {
 			c.Broken("building repository %d: %v", i, err)
@@ -145,6 +156,12 @@ func run(c *vf.Ctx) {
 			jobs = append(jobs, job{rp, k})
 		}
 	}
+	if big != nil {
+		repos = append(repos, big)
+		for k := 0; k < c.N(3, 5); k++ {
+			jobs = append(jobs, job{big, k})
+		}
+	}
 	vf.Parallel(len(jobs), 6, func(j int) {
 		rp := jobs[j].rp
 		r := c.Rand("opts", rp.idx, jobs[j].k)
@@ -160,12 +177,28 @@ func run(c *vf.Ctx) {
 		if jobs[j].k == 0 {
 			o = optSet{Cache: "default", Pool: -1} // the defaults are always one of the sets
 		}
-		runSequence(c, rp, o, r, readsPer)
+		n := readsPer
+		if rp.layout == "bigdelta" { // every read moves 17 MiB: few of them
+			n = c.N(30, 80)
+			o.NoPrefix = false
+		}
+		runSequence(c, rp, o, r, n)
 	})
 	// pack-level read paths, once per pack
 	vf.Parallel(len(repos), 6, func(i int) { packLevel(c, repos[i]) })
 
 	c.Extra("git_invocations", gitx.Calls.Load())
+	c.Extra("delta_copy_offset_bytes_max", copyOffBytesMax)
+	c.Extra("delta_copy_offset_max", copyOffsetMax)
+	c.Extra("delta_copy_size_max", copySizeMax)
+	c.Floor("delta copy instructions with a 3-byte base offset (>= 64 KiB) present", c.Counter("deltas_with_copy_offset_of_3_or_more_bytes"), 1)
+	c.Floor("delta copy instructions of 0x10000 bytes present", c.Counter("delta_copy_ops_of_64KiB"), 1)
+	if big != nil {
+		c.Floor("reads of the delta whose copies start at base offsets >= 2^24 (4-byte offsets)", c.Counter("reads_big_delta"), c.N(10, 40))
+		c.Floor("largest copy offset needs 4 bytes", copyOffBytesMax, 4)
+	} else {
+		c.Assume("git did not store the 17 MiB pair as a delta in this run: 4-byte copy offsets were not exercised (counted as bigdelta_skipped_git_did_not_deltify)")
+	}
 	c.Floor("reads compared with git cat-file", c.Counter("reads"), c.N(30000, 400000))
 	c.Floor("object contents compared byte-for-byte", c.Counter("contents_compared"), c.N(20000, 250000))
 	c.Floor("reads of packed deltas", c.Counter("reads_delta"), c.N(3000, 40000))
@@ -361,12 +394,28 @@ func buildRepo(c *vf.Ctx, g *gitx.Git, i int, layout string) (*repo, error) {
 		return nil, fmt.Errorf("layout %s lost objects according to git: %s", layout, d)
 	}
 	c.Count("git_confirmations", 1)
+	if err := rp.locate(c); err != nil {
+		return nil, err
+	}
+	return rp, nil
+}
+
+var (
+	copyMu          sync.Mutex
+	copyOffBytesMax int
+	copyOffsetMax   uint64
+	copySizeMax     uint64
+)
+
+// locate fills ids/byType/info (where every object lives) and folds the copy instructions of all
+// stored deltas into the evidence (largest base offset / offset bytes / copy size exercised).
+func (rp *repo) locate(c *vf.Ctx) error {
+	format := rp.format
 	rp.ids = rp.truth.IDs()
 	rp.byType = map[string][]string{}
 	for _, id := range rp.ids {
 		rp.byType[rp.truth[id].Type] = append(rp.byType[rp.truth[id].Type], id)
 	}
-	// where does each object live?
 	rp.info = map[string]objInfo{}
 	scan := func(dir string, alt bool) error {
 		hs := packlab.HashSize(format)
@@ -383,6 +432,22 @@ func buildRepo(c *vf.Ctx, g *gitx.Git, i int, layout string) (*repo, error) {
 			typeAt := map[int]int{}
 			for _, e := range es {
 				typeAt[e.Off] = e.Type
+				if e.Type >= 6 {
+					st := packlab.DeltaCopyStats(e.Data)
+					c.Count("delta_copy_ops", st.Copies)
+					c.Count("delta_copy_ops_of_64KiB", st.Size64KiBOps)
+					copyMu.Lock()
+					copyOffBytesMax = max(copyOffBytesMax, st.MaxOffsetLen)
+					copyOffsetMax = max(copyOffsetMax, st.MaxOffset)
+					copySizeMax = max(copySizeMax, st.MaxCopySize)
+					copyMu.Unlock()
+					if st.MaxOffsetLen >= 3 {
+						c.Count("deltas_with_copy_offset_of_3_or_more_bytes", 1)
+					}
+					if st.MaxOffsetLen == 4 {
+						c.Count("deltas_with_copy_offset_of_4_bytes", 1)
+					}
+				}
 			}
 			seen := map[string]bool{}
 			for _, ie := range ies {
@@ -417,12 +482,44 @@ func buildRepo(c *vf.Ctx, g *gitx.Git, i int, layout string) (*repo, error) {
 		return nil
 	}
 	if err := scan(rp.dir, false); err != nil {
-		return nil, err
+		return err
 	}
 	if rp.altDir != "" {
 		if err := scan(rp.altDir, true); err != nil {
-			return nil, err
+			return err
 		}
+	}
+	return nil
+}
+
+// buildBigDelta: two blobs > 16 MiB differing near their end, one stored as a delta of the other, so that
+// the delta's copy instructions need the fourth offset byte (base offsets >= 2^24).
+func buildBigDelta(c *vf.Ctx, g *gitx.Git, idx int) (*repo, error) {
+	g2 := *g
+	g2.Extra = append(append([]string{}, g.Extra...), "-c", "pack.writeReverseIndex=true")
+	bp, err := packlab.NewBigPair(&g2, filepath.Join(c.Scratch, "bigdelta"), "sha1")
+	if err != nil {
+		return nil, err
+	}
+	if !bp.Deltified {
+		c.Count("bigdelta_skipped_git_did_not_deltify", 1)
+		return nil, nil
+	}
+	rp := &repo{idx: idx, layout: "bigdelta", format: "sha1", dir: bp.GitDir, hasRev: true}
+	if rp.truth, err = packlab.CatFileAll(g, bp.Dir); err != nil {
+		return nil, err
+	}
+	c.Count("git_confirmations", 1)
+	if err := rp.locate(c); err != nil {
+		return nil, err
+	}
+	for _, id := range []string{bp.Blob1, bp.Blob2} {
+		if rp.info[id].delta {
+			rp.bigDelta = id
+		}
+	}
+	if rp.bigDelta == "" {
+		return nil, fmt.Errorf("big pair: verify-pack says delta, idx/walk disagree")
 	}
 	return rp, nil
 }
@@ -496,6 +593,9 @@ func (s *seqCtx) note(op, id string) {
 	in := s.rp.info[id]
 	if in.delta || in.altDelta {
 		s.c.Count("reads_delta", 1)
+	}
+	if id != "" && id == s.rp.bigDelta && op != "HasEncodedObject" && op != "EncodedObject(wrong-type)" {
+		s.c.Count("reads_big_delta", 1)
 	}
 	if in.packs == 0 && !in.loose && (in.altPacks > 0 || in.altLoose) {
 		s.c.Count("reads_alternate", 1)
